@@ -591,11 +591,12 @@ class NewHeaderStream(Stream):
 import c07s6      # noqa: E402  (needs the classes above)
 import c07s11     # noqa: E402
 import c07t2      # noqa: E402
+import c07s14     # noqa: E402
 
 PROPERTY = Property(
     pid="C07",
     streams=[annotcorr.CreateCommentStream(), annotcorr.CommentAtStream(), NewHeaderStream(), AchievableTieStream(), AnnotateReadbackStream(), FileTieStream(), StyleOfStream(),
-             EndToEndStream(), TreeStream(), annot_e2e.AnnotateE2EStream()] + c07s6.STREAMS + c07s11.STREAMS + c07t2.STREAMS,
+             EndToEndStream(), TreeStream(), annot_e2e.AnnotateE2EStream()] + c07s6.STREAMS + c07s11.STREAMS + c07t2.STREAMS + c07s14.STREAMS,
     assumptions=[
         "Jinja2 is outside the model: the template is an arbitrary function in the theorems; in the correspondence the model receives "
         "the text real Jinja rendered for the information the model computed",
